@@ -18,14 +18,19 @@ def relations(p, s):
 
 def shards(tier, seed):
     out = []
-    shapes = [(1, 1), (1, 3), (2, 2), (2, 3)] if tier == "quick" else \
-        [(1, 1), (1, 3), (2, 2), (2, 3), (3, 2), (3, 3)]
-    for p, s in shapes:
+    # (primaries, secondaries, with faults). Three primaries are the smallest
+    # shape in which a secondary is shared by non-consecutive primaries; quick
+    # runs it without the fault dimension.
+    shapes = [(1, 1, True), (1, 3, True), (2, 2, True), (2, 3, True),
+              (3, 2, False)] if tier == "quick" else \
+        [(1, 1, True), (1, 3, True), (2, 2, True), (2, 3, True),
+         (3, 2, True), (3, 3, True)]
+    for p, s, faults in shapes:
         rels = list(relations(p, s))
         n = 1 if len(rels) < 20 else (12 if tier == "quick" else 48)
         for i in range(n):
             if rels[i::n]:
-                out.append(("align", tier, p, s, rels[i::n]))
+                out.append(("align", tier, p, s, rels[i::n], faults))
     return out
 
 
@@ -172,7 +177,7 @@ def explore_loop(res, run, stats, p, s, rel, fault, skip, threads):
 
 
 def run_shard(shard):
-    _, tier, p, s, rels = shard
+    _, tier, p, s, rels, with_faults = shard
     res = driver.ShardResult()
     root = driver.fresh_dir("c10a")
     cache = {}
@@ -182,6 +187,8 @@ def run_shard(shard):
         for threads in (1, 2):
             run_case(res, root, p, s, rel, None, False, threads, cache)
         faults = [("A", i) for i in range(p)] + [("B", j) for j in range(s)]
+        if not with_faults:
+            faults = []
         for fault in faults:
             for skip in (True, False):
                 run_case(res, root, p, s, rel, fault, skip, 2, cache)
